@@ -125,3 +125,63 @@ def thorough_replay(prop, rep, repo):
     for r in results:
         print("SEED %s: %s %s" % (r["seed"], r["status"], r.get("first") or r.get("reason") or ""))
     return missed
+
+
+def auto_mutants(prop, rep, repo, budget=None):
+    """thorough tier, second part of the checker self-validation: a few syntactic mutants (operator flips, off-by-one,
+    dropped negation) generated inside the line ranges that the property's own record names as its mechanism are applied
+    to a scratch copy and the check is run on each.  The detection ratio goes into the evidence; nothing here can raise
+    a VIOLATION on the analysed tree (a mutant the check misses may be an equivalent mutant or one the test suite catches)."""
+    import importlib.util
+    budget = int(os.environ.get("VERIF_AUTOMUT", "6") if budget is None else budget)
+    if budget <= 0:
+        return
+    spec = importlib.util.spec_from_file_location("mutsweep", os.path.join(VERIF, "tools", "mutsweep.py"))
+    ms = importlib.util.module_from_spec(spec)
+    spec.loader.exec_module(ms)
+    muts = list(ms.mutants(prop, repo))
+    if not muts:
+        rep.note("thorough: no auto-mutants could be generated for %s" % prop)
+        return
+    step = max(1, len(muts) // budget)
+    chosen = muts[::step][:budget]
+    mod = importlib.import_module("props." + prop.lower())
+    out = []
+    old = os.environ.get("VERIF_SCRATCH_RUN")
+    os.environ["VERIF_SCRATCH_RUN"] = "1"
+    try:
+        for m in chosen:
+            base, dst = scratch_copy(repo)
+            try:
+                pth = os.path.join(dst, m["file"])
+                lines = open(pth).read().split("\n")
+                lines[m["line"] - 1] = m["_new_full"]
+                open(pth, "w").write("\n".join(lines))
+                try:
+                    path, _ = facts.ensure_facts(dst, quiet=True)
+                except SystemExit:
+                    out.append({"mutant": "%s:%d %s" % (m["file"], m["line"], m["new"][:100]), "status": "does-not-build"})
+                    continue
+                db = facts.DB(path)
+                db.repo = dst
+                try:
+                    r2 = mod.run(db, "quick")
+                    bad = [i for i in r2.instances if not i["ok"]]
+                    out.append({"mutant": "%s:%d %s" % (m["file"], m["line"], m["new"][:100]), "status": "detected" if bad else "missed",
+                                "by": sorted(set(i["rule"] for i in bad))[:3]})
+                except (facts.MissingAnchor, common.Broken) as e:
+                    out.append({"mutant": "%s:%d %s" % (m["file"], m["line"], m["new"][:100]), "status": "cannot-decide", "by": [str(e)[:100]]})
+            finally:
+                shutil.rmtree(base, ignore_errors=True)
+    finally:
+        if old is None:
+            os.environ.pop("VERIF_SCRATCH_RUN", None)
+        else:
+            os.environ["VERIF_SCRATCH_RUN"] = old
+    rep.extra["auto_mutants"] = out
+    n_det = sum(1 for o in out if o["status"] == "detected")
+    n_build = sum(1 for o in out if o["status"] != "does-not-build")
+    rep.note("thorough: %d auto-mutants in the property's anchored code (%d build): %d detected, %d missed (missed ones may be equivalent or test-visible)" % (
+        len(out), n_build, n_det, sum(1 for o in out if o["status"] == "missed")))
+    for o in out:
+        print("AUTOMUT %s: %s %s" % (o["status"], o["mutant"], o.get("by", "")))
